@@ -134,7 +134,17 @@ package rostrings
 //@ func capitalize
 //@   note title-casing by golang.org/x/text with the English rules, made afresh for every call (a Caser is stateful and must not be shared), applied to the text it is given
 //@   props C18
-//@   binds str
 //@   track call.*
 //@   ensures [a-fresh-english-title-caser-applied-to-the-text|C18] count(call.Title) == 1 && count(call.ANY) == 2
+
+//@ func toCamelCase
+//@   note the words of the text, each lower-cased, all but the first capitalised, joined without a separator
+//@   props C18
+//@   track call.ToLower call.ToUpper call.Join callfn.* loop.*
+//@   ensures [every-word-lower-cased-then-joined-without-separator|C18] trace(loop.L0, call.Join(_, _))
+
+//@ loop toCamelCase#0
+//@   noexit
+//@   invariant 0 <= it && it <= len(ranged)
+//@   iteration ensures count(call.ToLower) == 1 && count(call.ToUpper) == 0 && count(callfn.ANY) == 0
 
